@@ -592,6 +592,38 @@ pub fn lookup(name: &str) -> Option<OpFn> {
             r.extend(diff(Matrix2::from(b), m));
             ok(r)
         },
+        // ---------------------------------------------------------------- C14 (exact parts)
+        "o.lerp" => |a| {
+            let (u, v, p, q, t) = (a.v4(), a.v4(), a.q(), a.q(), a.x());
+            let (zero, one) = (X::int(0), X::int(1));
+            let mut r = diff(u.lerp(v, t), u + (v - u) * t);
+            r.extend(diff(u.lerp(v, zero), u));
+            r.extend(diff(u.lerp(v, one), v));
+            r.extend(diff(u.truncate().lerp(v.truncate(), t), (u + (v - u) * t).truncate()));
+            r.extend(diff(p.lerp(q, t), p + (q - p) * t));
+            r.extend(diff(p.lerp(q, zero), p));
+            r.extend(diff(p.lerp(q, one), q));
+            ok(r)
+        },
+        "o.nlerp.exact" => |a| {
+            // unit a, b and t such that the interpolant has rational length
+            let (p, q, t) = (a.q(), a.q(), a.x());
+            let one = X::int(1);
+            if !is0(&[p.magnitude2() - one, q.magnitude2() - one]) { return Out::Skip; }
+            let qq = if p.dot(q).val().neg { -q } else { q };
+            let c = p * (one - t) + qq * t;
+            if c.magnitude2().val().exact_sqrt().is_none() || is0(&[c.magnitude2()]) { return Out::Skip; }
+            let n = p.nlerp(q, t);
+            let mut r = vec![n.magnitude2() - one];
+            r.extend(diff(n, c / c.magnitude()));
+            r.extend(diff(p.nlerp(q, X::int(0)), p));
+            r.extend(diff(p.nlerp(q, one), qq));
+            // near-parallel inputs make slerp hand over to nlerp
+            if p.dot(qq).val().cmp(&crate::big::Rat::from_f64(0.9995).unwrap()) == std::cmp::Ordering::Greater {
+                r.extend(diff(p.slerp(q, t), n));
+            }
+            ok(r)
+        },
         // ---------------------------------------------------------------- C10
         "o.proj.ortho" => |a| {
             let v: Vec<X> = (0..6).map(|_| a.x()).collect();
@@ -785,7 +817,7 @@ pub fn names() -> Vec<String> {
     let mut v: Vec<String> = ["o.v3.lagrange", "o.v3.cross_cross", "o.v3.cross_orth", "o.v.dot_bilinear",
         "o.m4.constructors", "o.m3.constructors", "o.m.embed", "o.p3.homogeneous",
         "o.q.algebra", "o.q.invert", "o.q.rotate", "o.q.compose", "o.q.same_rotation", "o.q.roundtrip",
-        "o.v1.metric", "o.v2.metric", "o.v3.metric", "o.v4.metric", "o.q.metric", "o.look.rigid", "o.look.2d", "o.euler.product", "o.rot.axis_angle", "o.rad.modular", "o.deg.modular", "o.angle.convert", "o.proj.ortho", "o.proj.frustum", "o.proj.perspective", "o.proj.planar", "o.dq.matrix", "o.db2.matrix", "o.m4.transform", "o.m3.transform",
+        "o.v1.metric", "o.v2.metric", "o.v3.metric", "o.v4.metric", "o.q.metric", "o.lerp", "o.nlerp.exact", "o.look.rigid", "o.look.2d", "o.euler.product", "o.rot.axis_angle", "o.rad.modular", "o.deg.modular", "o.angle.convert", "o.proj.ortho", "o.proj.frustum", "o.proj.perspective", "o.proj.planar", "o.dq.matrix", "o.db2.matrix", "o.m4.transform", "o.m3.transform",
         "o.dq.laws", "o.dq.inverse", "o.db3.laws", "o.db3.inverse", "o.db2.laws", "o.db2.inverse"]
         .iter()
         .map(|s| s.to_string())
